@@ -9,7 +9,7 @@ Theorems only; helpers live in Proofs/Api.lean, Proofs/ApiView.lean, Proofs/ApiS
 import ZtypV.Proofs.Api
 import ZtypV.Proofs.ApiView
 import ZtypV.Proofs.ApiSkip
-namespace ZtypV.Props.C02c
+namespace ZtypV.Props.C02
 open ZtypV ZtypV.View ZtypV.Api ZtypV.Sim ZtypV.CodecIO
 
 /-! ## 1. type-definition accessors (C15 side) -/
@@ -299,4 +299,4 @@ example :
       [.skip 3, .u32, .base .index, .skip 2]).1 =
       [.skipped 3, .base (.num 117835012), .base (.index 7 8)] := by decide
 
-end ZtypV.Props.C02c
+end ZtypV.Props.C02
